@@ -4,7 +4,7 @@
    version really written for the key (one-key model, Hybrid/Engine.v; an index entry whose bytes fail verification is
    a miss: [on_disk]). *)
 From Coq Require Import List NArith Bool.
-From FV Require Import Disk.Codec Disk.Fault Hybrid.Engine Hybrid.EngineInv Hybrid.EngineThms Hybrid.EngineVers.
+From FV Require Import Disk.Codec Disk.Fault Disk.BlobIndex Disk.BlobIndexProofs Hybrid.Engine Hybrid.EngineInv Hybrid.EngineThms Hybrid.EngineVers.
 Import ListNotations.
 Open Scope N_scope.
 
@@ -43,6 +43,38 @@ Theorem c03_bad_header_rejected : forall cksum decompress raw e,
   read_header raw = inr e -> load_entry cksum decompress raw = None.
 Proof. exact bad_header_rejected. Qed.
 Print Assumptions c03_bad_header_rejected.
+
+(* the blob index page (what recovery's scan parses), for ARBITRARY bytes: entries reach recovery only if the stored
+   checksum equals the checksum of everything behind it - the entry count included (seeded change C03-m2 excludes it) *)
+Theorem c03_index_page_accept_means_verified : forall cksum buf es,
+  bidx_read cksum buf = BOk es ->
+  cksum (skipn 8 buf) = decode_be (firstn 8 buf) /\
+  let count := N.to_nat (decode_be (firstn 4 (skipn 8 buf))) in
+  (BIDX_OFFSET + count * BENT_LEN <= length buf)%nat /\ length es = count /\
+  es = chunks count (skipn BIDX_OFFSET buf).
+Proof. exact bidx_accept_means_verified. Qed.
+Print Assumptions c03_index_page_accept_means_verified.
+
+Theorem c03_index_page_damage_rejected : forall cksum buf,
+  (BIDX_OFFSET <= length buf)%nat -> cksum (skipn 8 buf) <> decode_be (firstn 8 buf) -> bidx_read cksum buf = BReject.
+Proof. exact bidx_damage_rejected. Qed.
+Print Assumptions c03_index_page_damage_rejected.
+
+(* BlobIndexReader::read slices the page by the stored count and panics when it points beyond the page: only a page whose
+   checksum verifies gets that far *)
+Theorem c03_index_page_panic_only_if_verified : forall cksum buf,
+  (BIDX_OFFSET <= length buf)%nat -> bidx_read cksum buf = BPanic -> cksum (skipn 8 buf) = decode_be (firstn 8 buf).
+Proof. exact bidx_panic_only_if_verified. Qed.
+Print Assumptions c03_index_page_panic_only_if_verified.
+
+Example c03_index_page_nonvacuous :
+  let ck := fun b : bytes => fold_left N.add b 7 in
+  let es := [mkBent 5 9 4096 100; mkBent 6 10 8192 4097] in
+  let page := bidx_page ck es [1; 2; 3] in
+  bidx_read ck page = BOk es /\
+  (* one more entry claimed by the count, same checksum field: rejected *)
+  bidx_read ck (firstn 11 page ++ [3] ++ skipn 12 page) = BReject.
+Proof. vm_compute. split; reflexivity. Qed.
 
 (* recovery over a damaged device: [vis] is what is left of the device as far as the scan is concerned (any subset of the
    copies: a failed blob index checksum, a sequence regress, a zeroed page end the scan of a block) *)
